@@ -164,6 +164,8 @@ package routing
 //@   loop * havoc
 //@   site call GraphSession nth 0 as restrictions-name-the-blinded-path-set: assert restrictions.BlindedPaymentPathSet == p.payment.BlindedPathSet
 //@   site call newRoute as newroute-domain: domain arg(blindedPathSet) == nil && forallq(k, 0, len(arg(pathEdges)), arg(pathEdges)[k] != nil && arg(pathEdges)[k].policy != nil)
+//@   site call GraphSession nth 0 as restrictions-limits: assert restrictions.FeeLimit == feeLimit &&
+//@        restrictions.CltvLimit == wrap(p.payment.CltvLimit - wrap(wrap(p.payment.FinalCLTVDelta + 3, 16), 32), 32)
 //@   site call GraphSession nth 0 as restrictions-fields: assert restrictions.DestCustomRecords == p.payment.DestCustomRecords &&
 //@        restrictions.Metadata == p.payment.Metadata && restrictions.LastHop == p.payment.LastHop &&
 //@        restrictions.OutgoingChannelIDs == p.payment.OutgoingChannelIDs && restrictions.PaymentAddr == p.payment.PaymentAddr
@@ -173,3 +175,10 @@ package routing
 //@   bounds-safe
 //@   loop * havoc
 //@   site call pathFinder: assert arg(1) == restrictions && arg(6) == maxAmt && arg(8) == finalHtlcExpiry
+//@
+//@ // ---- local-channel rules (bandwidth, disabled flag ignored, outgoing restriction) apply to OUR node's channels only
+//@ func findPath
+//@   props C19
+//@   loop * havoc
+//@   site call getEdge: domain arg(nextOutFee) <= 1<<62
+//@   site call newNodeEdgeUnifier: assert arg(sourceNode) == self && arg(toNode) == pivot && arg(useInboundFees) == !isExitHop && arg(outChanRestr) == outgoingChanMap
